@@ -245,6 +245,18 @@ func shortCoin(c sdk.Coin) string {
 
 // OrderSel picks an order id from the pre-state: the k-th lowest open order id of seller.
 func OrderSel(pre *chain.Snapshot, seller sdk.AccAddress, k int) (uint64, bool) {
+	if k < 0 { // -1 = the seller's last order
+		var ids []uint64
+		for _, o := range pre.SellOrders {
+			if string(o.Seller) == string(seller) {
+				ids = append(ids, o.Id)
+			}
+		}
+		if len(ids)+k < 0 {
+			return 0, false
+		}
+		return ids[len(ids)+k], true
+	}
 	i := 0
 	for _, o := range pre.SellOrders { // primary-key order == ascending id
 		if string(o.Seller) == string(seller) {
